@@ -18,3 +18,10 @@ package parse
 //@   opt nosafety
 //@   ensures p.lexer == nil && p.parser == nil
 //@   guard call Put: arg1 != nil
+
+// ---- C10: a temporal bound visitor always yields a bound ----------------------------------------------------------
+// VisitTemporalAnnotation and VisitTemporalOperator assert the result to ast.TemporalBound without a check: on every
+// path (also after recording "invalid timestamp/duration") the visitor returns a value of that type.
+//@ func (p Parser) VisitTemporalBound(ctx)
+//@   opt nosafety
+//@   ensures result is ast.TemporalBound
